@@ -195,7 +195,7 @@ def negative_control(R, obs, label, every=None, floor=0.5, skip=lambda l: False,
     # stateful engines stop judging a program / session after its first disagreement: damage at most one line per group
     cands, taken, k = [], False, 0
     for i, l in enumerate(obs):
-        if l == "R" or l.startswith(("S ", "WC ", "SN")):
+        if l == "R" or l.startswith(("S ", "WC ", "SN", "RZ new")):
             taken, k = False, 0
         if skip(l):
             continue
